@@ -80,6 +80,9 @@ class TD64(object):
         dt = np.dtype(dt)
         if dt.kind == "m":
             u = np.datetime_data(dt)[0]
+            if UNITS[u] < UNITS[self.unit]:
+                M.trusted("numpy: timedelta64 astype to a coarser unit is floor division of the count")
+                return TD64(self.value // (UNITS[self.unit] // UNITS[u]), u)
             return TD64(_conv(self.value, self.unit, u), u)
         if dt.kind == "i":
             return self.value
